@@ -9,7 +9,7 @@
 From Coq Require Import List NArith Bool.
 From Gluon Require Import Gen.FactsFilters Model.FilterPolicy Model.Responders Model.Session Proofs.MirrorProofs Proofs.PopProofs
   Proofs.ConvergeProofs Proofs.MembershipProofs Proofs.ViewProofs Proofs.StoreViewProofs Proofs.CommuteProofs Proofs.InterleaveProofs
-  Proofs.ObserverProofs Proofs.WorldProofs Proofs.SessionWitness Proofs.ReadOnlyProofs.
+  Proofs.ObserverProofs Proofs.WorldProofs Proofs.SessionWitness Proofs.ReadOnlyProofs Proofs.LabelProofs Gen.FactsStartup.
 Import ListNotations.
 Open Scope N_scope.
 
@@ -278,6 +278,22 @@ Theorem C02_refused_command_changes_nothing_shared w i w' out oc :
   (forall j, j <> i -> get_sess w' j = get_sess w j).
 Proof. exact (refused_command_changes_nothing_shared w i w' out oc). Qed.
 Print Assumptions C02_refused_command_changes_nothing_shared.
+
+(* MOVE answered by a connector with label semantics ("do not remove the old messages"): the source mailbox keeps every
+   row and no shared flag changes - what a newly opened session sees of the source is what it saw before *)
+Theorem C02_label_move_keeps_source : forall w i s sel ps dst w' out,
+  get_sess w i = Some s -> ss_idle s = false -> ss_sel s = Some sel -> sel <> dst ->
+  do_cmd w i (CMoveLabel ps dst) = (w', out, OOk) ->
+  mbox_of w' sel = mbox_of w sel /\ w_flags w' = w_flags w.
+Proof. exact label_move_keeps_source. Qed.
+Print Assumptions C02_label_move_keeps_source.
+
+(* statements over more than db.ChunkLimit ids: every chunk loop of the database layer binds the CHUNK's own arguments
+   (fact read from write_ops.go / read_ops.go on every run; the list-level meaning is C07_chunked_statements_equal_whole):
+   a STORE or COPY of 1:* reaches the database for every message it names, as the state update says *)
+Theorem C02_chunked_statements_bind_their_chunk : chunk_loops_bind_their_chunk = true.
+Proof. exact eq_refl. Qed.
+Print Assumptions C02_chunked_statements_bind_their_chunk.
 
 Example C02_readonly_example :
   do_cmd ro_w0 0 (CFetchBodyRO [1%nat] false) = (ro_w0, [], OOk) /\
